@@ -66,6 +66,21 @@ PLANS = {
                      G("sorter_real", 2, 24, "TraceSorter", "TraceSorter_C08.cfg")]),
     "C09": dict(level="model_checking", assumptions=TRUST + ["independent decoder: sequential walk, codec crates, LEB128 framing parser"],
                 gen=[G("format", 400, 12000, "TraceLayout", "TraceLayout_C09.cfg")]),
+    "C11": dict(level="model_checking", assumptions=TRUST + ["stream equality is judged on (length, two independent 31-bit digests)", "read-side: results under a schedule are validated against the same contract specifications as the whole-buffer runs"],
+                mc=[MC("MCIO", "MCIO_W.cfg", workers=2), MC("MCIO", "MCIO_R.cfg", workers=2),
+                    MC("MCIO", "MCIO_Wbad.cfg", workers=2, expect="fail:CountOk")],
+                gen=[G("wsched", 120, 4000, "TraceIO", "TraceIO.cfg"),
+                     G("roundtrip", 100, 3000, "TraceCursor", "TraceCursor.cfg", extra=["--rsched", "rand3", "--wsched", "rand5"]),
+                     G("roundtrip", 60, 1000, "TraceCursor", "TraceCursor.cfg", extra=["--rsched", "one", "--wsched", "lenm1"]),
+                     G("format", 60, 2000, "TraceLayout", "TraceLayout_C09.cfg", extra=["--wsched", "rand11"]),
+                     G("seeks", 24, 500, "TraceCursor", "TraceCursor.cfg", extra=["--rsched", "rand7"]),
+                     G("history", 32, 1000, "TraceCursor", "TraceCursor.cfg", extra=["--rsched", "intr"]),
+                     G("history", 32, 1000, "TraceCursor", "TraceCursor.cfg", extra=["--rsched", "lenm1"]),
+                     G("ranges", 24, 600, "TraceIter", "TraceIter.cfg", extra=["--rsched", "rand13"]),
+                     G("prefixes", 24, 600, "TraceIter", "TraceIter.cfg", extra=["--rsched", "one"]),
+                     G("merge", 80, 3000, "TraceMerger", "TraceMerger.cfg", extra=["--rsched", "rand17", "--wsched", "rand19"]),
+                     G("sorter", 80, 3000, "TraceSorter", "TraceSorter_C07.cfg", extra=["--rsched", "rand23", "--wsched", "rand29"]),
+                     G("roundtrip_v1", 40, 600, "TraceCursor", "TraceCursor.cfg", extra=["--rsched", "rand31"])]),
     "C13": dict(level="fault_enumeration", assumptions=TRUST,
                 mc=[MC("MCTrailer", "MCTrailer.cfg", workers=2)],
                 gen=[G("open", 18, 600, "TraceOpen", "TraceOpen.cfg")]),
